@@ -1,0 +1,10 @@
+//go:build verif
+
+package vgirpc
+
+// Verification hook for C43 (build tag "verif"). Add-only; nothing here is
+// compiled into normal builds.
+
+// VerifC43DispatchHook returns the dispatch hook installed on the server (for
+// example by vgiotel.InstrumentServer), or nil.
+func (s *Server) VerifC43DispatchHook() DispatchHook { return s.dispatchHook }
